@@ -487,3 +487,44 @@ pub fn run(prop: &str, seed: u64, n: usize, outdir: &str, _corpus: Option<&str>)
     writeln!(meta, "{{\"cases\":{},\"duplicates\":{},\"shards\":{},\"distribution\":{{{}}},\"samples\":[{}]}}", sh.cases.len(), sh.duplicates, shards, d.join(","), samples.join(","))?;
     Ok(())
 }
+
+/// C15M: model files written by `Model::write_model` for the layout model (Model/TrainImage.v)
+pub fn run_model_images(seed: u64, n: usize, outdir: &str) -> std::io::Result<()> {
+    let mut sh = Shards::new("C15M", "From Vib Require Import Model.Base Model.Codec Model.DictImage Model.TrainImage Check.MdlCheck.", "mdlcase", "mdl_report");
+    let mut dist: BTreeMap<String, usize> = BTreeMap::new();
+    let mut master = Rng::new(seed ^ 0x15AD);
+    let mut done = 0usize;
+    let mut tries = 0usize;
+    while done < n && tries < 20 * n + 20 {
+        tries += 1;
+        let sub = master.next();
+        let mut rng = Rng(sub);
+        let c = gen_cfg(&mut rng, false);
+        let iters = 2 + rng.below(3);
+        let cfg_ok = std::panic::catch_unwind(|| TrainerConfig::from_readers(c.lex.as_bytes(), c.chardef.as_bytes(), c.unk.as_bytes(), c.feature_def.as_bytes(), c.rewrite_def.as_bytes()).is_ok()).unwrap_or(false);
+        if !cfg_ok { *dist.entry("configuration_rejected".into()).or_default() += 1; continue; }
+        let model = match std::panic::catch_unwind(std::panic::AssertUnwindSafe(|| train(&c, iters, None))) { Ok(Some(m)) => m, _ => { *dist.entry("training_failed".into()).or_default() += 1; continue; } };
+        let mut mbytes = vec![];
+        if model.write_model(&mut mbytes).is_err() { *dist.entry("write_model_failed".into()).or_default() += 1; continue; }
+        let again_len = match Model::read_model(&mbytes[..]) { Ok(m2) => { let mut b = vec![]; if m2.write_model(&mut b).is_ok() { b.len() } else { 0 } } Err(_) => 0 };
+        // what the definition files say
+        let mut uni: Vec<String> = vec![];
+        for line in c.feature_def.lines() { let line = line.trim(); if let Some(t) = line.strip_prefix("UNIGRAM ") { uni.push(t.to_string()); } }
+        let surfaces: Vec<String> = c.lex.lines().filter(|l| !l.trim().is_empty()).map(|l| csv_cells(l).into_iter().next().unwrap_or_default()).collect();
+        let term = format!(
+            "(Build_mdlcase {} {} {} {} {} {} {})",
+            sub, crate::util::cbytes(&mbytes), clist(&uni, |t| crate::util::cbytes(t.as_bytes())), clist(&c.bigrams, |(l, _)| crate::util::cbytes(l.as_bytes())), clist(&c.bigrams, |(_, r)| crate::util::cbytes(r.as_bytes())),
+            clist(&surfaces, |t| crate::util::cbytes(t.as_bytes())), again_len
+        );
+        *dist.entry("model_files".into()).or_default() += 1;
+        *dist.entry(format!("file_kb_{}", mbytes.len() / 1024 / 50 * 50)).or_default() += 1;
+        let human = format!("model file of {} bytes trained from lex.csv={} unk.def={} feature.def={} rewrite.def={} corpus={} iters={}", mbytes.len(), json_str(&c.lex), json_str(&c.unk), json_str(&c.feature_def), json_str(&c.rewrite_def), json_str(&c.corpus), iters);
+        sh.push_h(format!("seed:{}", sub), term, human);
+        done += 1;
+    }
+    let shards = sh.write(outdir, 1)?;
+    let mut meta = std::fs::File::create(format!("{}/meta.json", outdir))?;
+    let d: Vec<String> = dist.iter().map(|(k, v)| format!("{}:{}", json_str(k), v)).collect();
+    writeln!(meta, "{{\"cases\":{},\"duplicates\":{},\"shards\":{},\"distribution\":{{{}}},\"samples\":[]}}", sh.cases.len(), sh.duplicates, shards, d.join(","))?;
+    Ok(())
+}
